@@ -373,6 +373,8 @@ class TermGen:
         if k == "ueq":
             us = [s for s in self.sig.sorts]
             sort = rng.choice(us)
+            if rng.random() < self.o.get("diamond", 0.06):
+                return self.eq_chains(sort)
             if rng.random() < self.o["distinct"] * 2:
                 return T("distinct", tuple(self.uterm(sort, d - 1) for _ in range(rng.choice([2, 3, 3, 4]))), "Bool")
             return T("=", (self.uterm(sort, d - 1), self.uterm(sort, d - 1)), "Bool")
@@ -391,6 +393,49 @@ class TermGen:
                 return T(rng.choice(["=", "<=", "<", ">="]), (s, other), "Bool")
             return T("=", (s, other), "Bool")
         return self.pick_var("Bool")
+
+    def eq_chains(self, sort):
+        """Disjunction of 2-step equality chains (the shape the 'learnt transitivity' preprocessing looks for),
+        with end points that coincide fully, partly, crossed, or not at all, and sometimes extra disjuncts."""
+        rng = self.rng
+        pool = list(self.sig.consts.get(sort, []))
+        if len(pool) < 2:
+            return T("=", (self.uterm(sort, 0), self.uterm(sort, 0)), "Bool")
+        terms = [mkvar(n, sort) for n in pool]
+        for n, args, _ in self.sig.funs_returning(sort):
+            if len(args) == 1 and args[0] == sort:
+                terms.append(T(n, (rng.choice(terms[:len(pool)]),), sort))
+
+        def pick(avoid):
+            c = [t for t in terms if all(t is not a for a in avoid)]
+            return rng.choice(c or terms)
+
+        def chain(x, z):
+            w = pick((x, z))
+            e1, e2 = T("=", (x, w), "Bool"), T("=", (w, z), "Bool")
+            if rng.random() < 0.3:
+                e1 = T("=", (w, x), "Bool")
+            return T("and", (e1, e2) if rng.random() < 0.8 else (e2, e1))
+        x = rng.choice(terms)
+        z = pick((x,))
+        mode = rng.random()
+        if mode < 0.4:
+            x2, z2 = x, z                      # proper diamond
+        elif mode < 0.55:
+            x2, z2 = z, x                      # crossed diamond
+        elif mode < 0.8:
+            o = pick((x, z))
+            x2, z2 = rng.choice([(x, o), (o, z), (z, o), (o, x)])    # only one end point shared
+        else:
+            x2 = rng.choice(terms)
+            z2 = pick((x2,))
+        disj = [chain(x, z), chain(x2, z2)]
+        if rng.random() < 0.45:
+            disj.append(rng.choice([T("=", (rng.choice(terms), rng.choice(terms)), "Bool"), self.pick_var("Bool"),
+                                    chain(rng.choice(terms), rng.choice(terms))]))
+            if rng.random() < 0.5:
+                rng.shuffle(disj)
+        return T("or", tuple(disj))
 
     def boolean(self, d):
         rng = self.rng
@@ -631,6 +676,24 @@ class ScriptGen:
         if named:
             t = T("!", (t,), "Bool", named)
         return {"k": "assert", "term": t}
+
+    def diamond_script(self):
+        """Assertions built around equality chains and disequalities of their end points (QF_UF):
+        sat/unsat depends on exactly what the transitivity-learning preprocessing may conclude."""
+        rng = self.rng
+        sort = self.sig.sorts[0]
+        pool = [mkvar(n, sort) for n in self.sig.consts[sort]]
+        cmds = []
+        for _ in range(rng.randint(2, 4)):
+            t = self.tg.eq_chains(sort)
+            if rng.random() < 0.3:
+                t = T(rng.choice(["and", "or"]), (t, self.tg.boolean(1)))
+            cmds.append({"k": "assert", "term": t})
+        for _ in range(rng.randint(1, 3)):
+            a, b = rng.sample(pool, 2) if len(pool) >= 2 else (pool[0], pool[0])
+            cmds.append({"k": "assert", "term": T("not", (T("=", (a, b), "Bool"),))})
+        rng.shuffle(cmds)
+        return cmds
 
     def define_fun(self):
         rng = self.rng
